@@ -41,6 +41,7 @@ type ReplayResult struct {
 	Exhausted    bool     `json:"exhausted"`
 	Mismatch     string   `json:"mismatch"`
 	AssumeFailed bool     `json:"assume_failed"`
+	Crashed      bool     `json:"crashed"` // the replay process died (fatal error), isolated to this case
 }
 
 type ReplayFile struct {
@@ -61,6 +62,7 @@ import (
 	"encoding/json"
 	"fmt"
 	"os"
+	"runtime/debug"
 	"testing"
 )
 
@@ -116,6 +118,7 @@ func TestVPReplay(t *testing.T) {
 	if in == "" || out == "" {
 		t.Skip("no replay input")
 	}
+	debug.SetMaxStack(128 << 20) // unbounded recursion dies quickly instead of after 1 GB of stack
 	data, err := os.ReadFile(in)
 	if err != nil {
 		t.Fatal(err)
@@ -159,34 +162,86 @@ func nativeReplay(repo string, realFiles map[string]string, harnessNames []strin
 	ovData, _ := json.Marshal(ov)
 	ovFile := filepath.Join(scratch, "overlay.json")
 	os.WriteFile(ovFile, ovData, 0o644)
-	inFile := filepath.Join(scratch, "replay_in.json")
-	outFile := filepath.Join(scratch, "replay_out.json")
-	os.Remove(outFile)
-	data, _ := json.Marshal(cases)
-	os.WriteFile(inFile, data, 0o644)
-	args := []string{"test", "-vet=off", "-count=1", "-run", "^TestVPReplay$", "-overlay", ovFile}
+	// build the test binary once, then run the cases in one process; when that process dies (a fatal
+	// error such as a stack overflow cannot be recovered by the harness) the cases are split until the
+	// dying ones are isolated, and those are reported as crashed.
+	bin := filepath.Join(scratch, "replay.test")
+	args := []string{"test", "-c", "-vet=off", "-o", bin, "-overlay", ovFile}
 	args = append(args, extraFlags...)
 	args = append(args, ".")
 	cmd := exec.Command("go", args...)
 	cmd.Dir = repo
-	cmd.Env = append(os.Environ(), "GOFLAGS=-mod=mod", "GOPROXY=off", "GOSUMDB=off", "GOTOOLCHAIN=local", "TZ=UTC",
-		"VP_REPLAY_IN="+inFile, "VP_REPLAY_OUT="+outFile)
-	outb, err := cmd.CombinedOutput()
-	if err != nil {
+	cmd.Env = append(os.Environ(), "GOFLAGS=-mod=mod", "GOPROXY=off", "GOSUMDB=off", "GOTOOLCHAIN=local")
+	if outb, err := cmd.CombinedOutput(); err != nil {
 		return nil, string(outb), fmt.Errorf("go test failed: %v", err)
 	}
-	rd, err := os.ReadFile(outFile)
+	defer os.Remove(bin)
+	var lastOut string
+	var runBatch func(cs []ReplayCase, depth int) ([]ReplayResult, error)
+	runBatch = func(cs []ReplayCase, depth int) ([]ReplayResult, error) {
+		inFile := filepath.Join(scratch, fmt.Sprintf("replay_in_%d.json", depth))
+		outFile := filepath.Join(scratch, fmt.Sprintf("replay_out_%d.json", depth))
+		os.Remove(outFile)
+		data, _ := json.Marshal(cs)
+		os.WriteFile(inFile, data, 0o644)
+		cmd := exec.Command(bin, "-test.run", "^TestVPReplay$", "-test.count=1", "-test.timeout=30m")
+		cmd.Dir = repo
+		cmd.Env = append(os.Environ(), "TZ=UTC", "VP_REPLAY_IN="+inFile, "VP_REPLAY_OUT="+outFile)
+		outb, err := cmd.CombinedOutput()
+		if len(outb) > 20000 {
+			outb = append(outb[:10000:10000], outb[len(outb)-10000:]...)
+		}
+		lastOut = string(outb)
+		if err == nil {
+			rd, err := os.ReadFile(outFile)
+			if err != nil {
+				return nil, err
+			}
+			var results []ReplayResult
+			if err := json.Unmarshal(rd, &results); err != nil {
+				return nil, err
+			}
+			if len(results) != len(cs) {
+				return nil, fmt.Errorf("replay returned %d results for %d cases", len(results), len(cs))
+			}
+			return results, nil
+		}
+		if len(cs) == 1 {
+			msg := "process died: " + firstFatalLine(lastOut)
+			return []ReplayResult{{Panicked: true, PanicMsg: msg, Crashed: true}}, nil
+		}
+		if depth > 40 {
+			return nil, fmt.Errorf("go test failed: %v", err)
+		}
+		h := len(cs) / 2
+		a, err := runBatch(cs[:h], depth+1)
+		if err != nil {
+			return nil, err
+		}
+		b, err := runBatch(cs[h:], depth+1)
+		if err != nil {
+			return nil, err
+		}
+		return append(a, b...), nil
+	}
+	results, err := runBatch(cases, 0)
 	if err != nil {
-		return nil, string(outb), err
+		return nil, lastOut, err
 	}
-	var results []ReplayResult
-	if err := json.Unmarshal(rd, &results); err != nil {
-		return nil, string(outb), err
+	return results, lastOut, nil
+}
+
+func firstFatalLine(out string) string {
+	for _, l := range strings.Split(out, "\n") {
+		if strings.HasPrefix(l, "fatal error:") || strings.HasPrefix(l, "runtime: goroutine stack exceeds") || strings.HasPrefix(l, "panic:") {
+			return strings.TrimSpace(l)
+		}
 	}
-	if len(results) != len(cases) {
-		return nil, string(outb), fmt.Errorf("replay returned %d results for %d cases", len(results), len(cases))
+	ls := strings.Split(strings.TrimSpace(out), "\n")
+	if len(ls) > 0 {
+		return ls[0]
 	}
-	return results, string(outb), nil
+	return "no output"
 }
 
 func contains(xs []string, x string) bool {
@@ -217,6 +272,7 @@ func cmdCheck(args []string) {
 	noReplay := fs.Bool("no-replay", false, "skip native replay (development only; never registered)")
 	only := fs.String("only", "", "only harnesses matching this substring (development)")
 	mapAll := fs.Bool("map-order-all", false, "explore map iteration orders")
+	solverName := fs.String("solver", envOr("GOSX_SOLVER", defaultSolver), "solver: z3-new (5.x), z3 (4.8.12), cvc5")
 	deadline := fs.Int("deadline", 0, "wall-clock limit in seconds for the exploration (0 = tier default)")
 	fs.Parse(args)
 	if *prop == "" {
@@ -282,11 +338,11 @@ func cmdCheck(args []string) {
 		allNames = append(allNames, h.Name())
 	}
 
-	cfg := Config{MaxPaths: 20000, MaxSteps: 20_000_000, MaxDecisions: 4000, SolverTimeoutMs: 5000, Workers: *workers, Solver: "z3", Verbose: *verbose, MapOrderAll: *mapAll}
+	cfg := Config{MaxPaths: 20000, MaxSteps: 20_000_000, MaxDecisions: 4000, SolverTimeoutMs: 30000, Workers: *workers, Solver: *solverName, Verbose: *verbose, MapOrderAll: *mapAll}
 	confSample := 300
 	if *tier == "thorough" {
 		cfg.MaxPaths = 1_000_000
-		cfg.SolverTimeoutMs = 60000
+		cfg.SolverTimeoutMs = 120000
 		cfg.MaxDecisions = 20000
 		confSample = 2000
 	}
@@ -299,7 +355,7 @@ func cmdCheck(args []string) {
 	ex := NewExplorer(p, cfg, append(append([]*ssaFunction{}, hs...), twins...))
 	dl := *deadline
 	if dl == 0 {
-		dl = 900
+		dl = 2400
 		if *tier == "thorough" {
 			dl = 3 * 3600
 		}
@@ -317,7 +373,7 @@ func cmdCheck(args []string) {
 	var staticDescr []string
 	if *prop == "C08" {
 		var serr error
-		staticVios, staticSites, staticDescr, serr = p.checkCastSites("z3", cfg.SolverTimeoutMs)
+		staticVios, staticSites, staticDescr, serr = p.checkCastSites(cfg.Solver, cfg.SolverTimeoutMs)
 		if serr != nil {
 			inconclusive = append(inconclusive, "static cast analysis: "+serr.Error())
 		}
@@ -552,7 +608,7 @@ func cmdCheck(args []string) {
 			"ssa_instructions_interpreted":  totalSteps,
 			"bounds":                        propBounds(*prop, *tier, cfg),
 			"queries":                       ex.Queries,
-			"solver":                        "z3 4.8.12 (z3 -in, incremental push/pop)",
+			"solver":                        solverVersion(cfg.Solver) + " (one incremental process per worker, push/pop)",
 			"solver_time_s":                 ex.SolverT.Seconds(),
 			"solver_unknown":                ex.Unknowns,
 			"limits_hit":                    inconclusive,
@@ -680,4 +736,17 @@ func cmdReplay(args []string) {
 		os.Exit(1)
 	}
 	fmt.Println("not reproduced")
+}
+
+// defaultSolver: z3 5.1.0 decides the byte-level queries of the JSON properties two orders of
+// magnitude faster than 4.8.12; 4.8.12 and cvc5 are the cross-check solvers (tools/crosscheck.py).
+const defaultSolver = "z3-new"
+
+func solverVersion(name string) string {
+	bin, _ := solverArgs(name, 1000)
+	out, err := exec.Command(bin, "--version").Output()
+	if err != nil {
+		return name
+	}
+	return strings.TrimSpace(strings.SplitN(string(out), "\n", 2)[0])
 }
